@@ -125,6 +125,12 @@ def kwargs_menu(name, shape):
             out.append({"axes": nd - 1})                     # a bare integer where a sequence is usual (scipy accepts both)
             out.append({"s": 5, "axes": -1})
             out.append({"s": 5})
+            out.append({"s": tuple([3, 4, 2][:nd]), "axes": tuple(range(nd)), "norm": "ortho", "_positional": "all"})
+            out.append({"s": None, "axes": tuple(range(max(0, nd - 2), nd)), "norm": "forward", "_positional": "all"})
+            # lengths of s and axes that do not match, more entries than the rank: the reference refuses
+            out.append({"s": (4, 4, 4), "axes": (0, 1)[:nd]})
+            out.append({"s": (2, 3, 4, 5)})
+            out.append({"s": (3,), "axes": (0, 1)[:nd]}) if nd >= 2 else None
             if nd >= 2 and name in ("fftn", "ifftn", "fft2", "ifft2"):
                 out.append({"s": (-1, 4), "axes": (0, 1)})
                 out.append({"s": (3, -1), "axes": (nd - 1, 0)})
@@ -148,6 +154,8 @@ def transformed_axes(name, kw, nd):
 
 def call(fn, x, kw):
     try:
+        if kw.get("_positional") == "all":
+            return fn(x, kw["s"], kw["axes"], kw["norm"]), None
         if kw.get("_positional"):
             pos = [kw["s"]] + ([kw["axes"]] if "axes" in kw else [])
             return fn(x, *pos, **{k: v for k, v in kw.items() if k not in ("s", "axes", "_positional")}), None
@@ -174,7 +182,9 @@ def fft_case(case, res):
             if werr is None:
                 nel0 = max(1, int(np.prod(want.shape)))
                 lim = 64 * float(np.finfo(np.float32 if want.dtype in (np.complex64, np.float32) else np.float64).eps) * nel0 * 2
-                if aerr is not None or alt.shape != want.shape or (want.size and float(np.max(np.abs(alt - want))) > lim):
+                # (numpy.fft REFUSING a spelling that scipy.fft accepts, e.g. a bare integer for axes, is not a disagreement)
+                if (aerr is None and (alt.shape != want.shape or (want.size and float(np.max(np.abs(alt - want))) > lim))) or \
+                        (aerr is not None and name in ("irfft", "irfft2", "irfftn", "hfft") and not isinstance(aerr, TypeError)):
                     # degenerate calls (e.g. irfft* over a length-1 axis: output length 2*(1-1) = 0) on which the
                     # reference libraries themselves disagree
                     res.skipped["numpy.fft and scipy.fft disagree on this call (unconstrained)"] += 1
